@@ -443,6 +443,11 @@ class Seam:
             ):
                 if S.sched is not None and not isinstance(file, int) and S.inside(file):
                     S.read_point("open_r", file)
+                if S.faults and not S.in_monitor and not isinstance(file, int) and S.inside(file):
+                    # a fault rule may name "open_r": the file cannot be read (EIO / EACCES)
+                    exc = S.match_fault("open_r", S.rel(file), None, None)
+                    if exc is not None:
+                        raise exc
                 if S.read_hook is not None and not isinstance(file, int) and S.inside(file):
                     S.read_hook(os.fspath(file))
                 if S.sched is not None and S.fine_reads and "b" in mode and not isinstance(file, int) and S.inside(file):
